@@ -84,7 +84,13 @@ theorem RSpec.parse_formatSpec (spec : List Char) : (RSpec.parse spec).formatSpe
   · simp [h1]
   · by_cases h2 : spec.take 2 = ['f', 'f'] <;> simp [h1, h2]
 
-/-- the `RecursionSpec` a field ends up with in `result` -/
+theorem RSpec.parse_conversion (spec : List Char) : (RSpec.parse spec).conversion = none := by
+  unfold RSpec.parse
+  by_cases h1 : spec.take 2 = ['r', 'f']
+  · simp [h1]
+  · by_cases h2 : spec.take 2 = ['f', 'f'] <;> simp [h1, h2]
+
+/-- the `RecursionSpec` a field ends up with in `result` (before a pending conversion is noted) -/
 def rsOf (isRec : Bool) (spec : List Char) : RSpec :=
   let rs := RSpec.parse spec
   if rs.isRecursive || (isRec && !rs.isFlat) then { rs with hasRecursed := true } else rs
@@ -108,13 +114,87 @@ theorem rsOf_isRecursive (isRec : Bool) (spec : List Char) : (rsOf isRec spec).i
 
 /-! ## one field -/
 
+theorem rsOf_conversion (isRec : Bool) (spec : List Char) : (rsOf isRec spec).conversion = none := by
+  unfold rsOf; simp only []; split <;> simp [RSpec.parse_conversion]
+
+theorem rsOf_with_none (isRec : Bool) (spec : List Char) :
+    { rsOf isRec spec with conversion := none } = rsOf isRec spec := by
+  have := rsOf_conversion isRec spec
+  cases h : rsOf isRec spec
+  rw [h] at this
+  simp only at this
+  simp [this]
+
+theorem rsOf_of_cond (isRec : Bool) (spec : List Char)
+    (h : (Spec.isRf spec || (isRec && !Spec.isFf spec)) = true) :
+    rsOf isRec spec = { RSpec.parse spec with hasRecursed := true } := by
+  unfold rsOf
+  simp only [RSpec.parse_isRecursive, RSpec.parse_isFlat, h, if_true]
+
+theorem rsOf_of_not_cond (isRec : Bool) (spec : List Char)
+    (h : (Spec.isRf spec || (isRec && !Spec.isFf spec)) = false) :
+    rsOf isRec spec = RSpec.parse spec := by
+  unfold rsOf
+  simp only [RSpec.parse_isRecursive, RSpec.parse_isFlat, h, Bool.false_eq_true, if_false]
+
+/-- the object of an expression in each of the three modes -/
+theorem fieldObj_rec (deep : Bool → Val → Except Exc Val) (ctx : Ctx) (isRec : Bool) (f : FieldT)
+    (h : (Spec.isRf f.spec || (isRec && !Spec.isFf f.spec)) = true) :
+    Spec.fieldObj deep ctx isRec f =
+      (match getField ctx f.name with
+       | .error e => .error e
+       | .ok obj => match deep true obj with
+         | .error e => .error e
+         | .ok o => match convertField o f.conv with
+           | .error e => .error e
+           | .ok o' => .ok (o', none)) := by
+  simp only [Spec.fieldObj, h, bind, Except.bind, pure, Except.pure]
+  cases getField ctx f.name with
+  | error e => rfl
+  | ok obj =>
+    simp only [if_true]
+    cases deep true obj with
+    | error e => rfl
+    | ok o => simp only []; cases hc : convertField o f.conv <;> simp [hc]
+
+theorem isRf_isFf_excl (spec : List Char) (h : Spec.isRf spec = true) : Spec.isFf spec = false := by
+  unfold Spec.isRf Spec.isFf at *
+  simp only [decide_eq_true_eq] at h
+  simp [h, rf_ne_ff]
+
+theorem fieldObj_ff (deep : Bool → Val → Except Exc Val) (ctx : Ctx) (isRec : Bool) (f : FieldT)
+    (h : Spec.isFf f.spec = true) :
+    Spec.fieldObj deep ctx isRec f =
+      (match getField ctx f.name with
+       | .error e => .error e
+       | .ok obj => match convertField obj f.conv with
+         | .error e => .error e
+         | .ok o => .ok (o, none)) := by
+  have hrf : Spec.isRf f.spec = false := by
+    cases h' : Spec.isRf f.spec
+    · rfl
+    · have := isRf_isFf_excl _ h'; rw [h] at this; cases this
+  simp only [Spec.fieldObj, h, hrf, bind, Except.bind, pure, Except.pure]
+  cases getField ctx f.name with
+  | error e => rfl
+  | ok obj => simp only [Bool.false_eq_true, if_false, if_true]; cases hc : convertField obj f.conv <;> simp [hc]
+
+theorem fieldObj_plain (deep : Bool → Val → Except Exc Val) (ctx : Ctx) (isRec : Bool) (f : FieldT)
+    (h : (Spec.isRf f.spec || (isRec && !Spec.isFf f.spec)) = false) (hff : Spec.isFf f.spec = false) :
+    Spec.fieldObj deep ctx isRec f =
+      (match getField ctx f.name with
+       | .error e => .error e
+       | .ok obj => .ok (obj, f.conv)) := by
+  simp only [Spec.fieldObj, h, hff, bind, Except.bind, pure, Except.pure]
+  cases getField ctx f.name <;> simp
+
 /-- the entry a part contributes to `result` -/
 def entryOf (fi : Bool → Val → Except Exc Val) (ctx : Ctx) (isRec : Bool) : Part → Except Exc Entry
   | .lit t => .ok (.lit t)
   | .fld f =>
     match Spec.fieldObj fi ctx isRec f with
     | .error e => .error e
-    | .ok obj => .ok (.fld obj (rsOf isRec f.spec))
+    | .ok (obj, pending) => .ok (.fld obj { rsOf isRec f.spec with conversion := pending })
 
 theorem ktField_good (fi : Bool → Val → Except Exc Val) (ctx : Ctx) (isRec : Bool) (f : FieldT) (auto : Option Nat)
     (h : GoodField f) :
@@ -122,24 +202,59 @@ theorem ktField_good (fi : Bool → Val → Except Exc Val) (ctx : Ctx) (isRec :
       (match entryOf fi ctx isRec (.fld f) with
        | .error e => .error e
        | .ok en => .ok (en, auto)) := by
-  unfold ktField entryOf Spec.fieldObj
+  unfold ktField entryOf
   rw [autoNumber_named _ _ h.named]
-  simp only [bind, Except.bind, pure, Except.pure]
-  cases hg : getField ctx f.name with
-  | error e => simp
-  | ok obj =>
-    simp only []
-    rw [vfmt_plain 1 ctx f.spec auto h.spec]
-    simp only [RSpec.parse_isRecursive, RSpec.parse_isFlat, rsOf]
-    by_cases hc : (Spec.isRf f.spec || (isRec && !Spec.isFf f.spec)) = true
-    · simp only [hc, if_true]
+  simp only []
+  by_cases hc : (Spec.isRf f.spec || (isRec && !Spec.isFf f.spec)) = true
+  · rw [fieldObj_rec _ _ _ _ hc, rsOf_of_cond _ _ hc]
+    cases hg : getField ctx f.name with
+    | error e => rfl
+    | ok obj =>
+      simp only []
+      rw [vfmt_plain 1 ctx f.spec auto h.spec]
+      simp only [RSpec.parse_isRecursive, RSpec.parse_isFlat, hc, if_true]
       cases hfi : fi true obj with
-      | error e => simp
+      | error e => rfl
       | ok o =>
+        simp only [Bool.true_or, if_true]
+        cases hcv : convertField o f.conv with
+        | error e => rfl
+        | ok o' =>
+          simp only []
+          have := RSpec.parse_conversion f.spec
+          cases hp : RSpec.parse f.spec
+          rw [hp] at this
+          simp only at this
+          simp [this]
+  · have hc' : (Spec.isRf f.spec || (isRec && !Spec.isFf f.spec)) = false := by simpa using hc
+    rw [rsOf_of_not_cond _ _ hc']
+    by_cases hff : Spec.isFf f.spec = true
+    · rw [fieldObj_ff _ _ _ _ hff]
+      cases hg : getField ctx f.name with
+      | error e => rfl
+      | ok obj =>
         simp only []
-        cases hcv : convertField o f.conv <;> simp [hcv]
-    · simp only [hc]
-      cases hcv : convertField obj f.conv <;> simp [hcv]
+        rw [vfmt_plain 1 ctx f.spec auto h.spec]
+        simp only [RSpec.parse_isRecursive, RSpec.parse_isFlat, hc', Bool.false_eq_true, if_false,
+          RSpec.parse_hasRecursed, hff, Bool.or_true, if_true]
+        cases hcv : convertField obj f.conv with
+        | error e => rfl
+        | ok o' =>
+          simp only []
+          have := RSpec.parse_conversion f.spec
+          cases hp : RSpec.parse f.spec
+          rw [hp] at this
+          simp only at this
+          simp [this]
+    · have hff' : Spec.isFf f.spec = false := by simpa using hff
+      rw [fieldObj_plain _ _ _ _ hc' hff']
+      cases hg : getField ctx f.name with
+      | error e => rfl
+      | ok obj =>
+        simp only []
+        rw [vfmt_plain 1 ctx f.spec auto h.spec]
+        simp only [RSpec.parse_isRecursive, RSpec.parse_isFlat, hc', Bool.false_eq_true, if_false,
+          RSpec.parse_hasRecursed, hff', Bool.or_false]
 
 /-! ## the loop -/
 
@@ -193,7 +308,7 @@ theorem ktLoop_good (fi : Bool → Val → Except Exc Val) (ctx : Ctx) (isRec : 
     simp only [parts, Tup.parts, mapE_append]
     cases hf : t.field with
     | none =>
-      simp only [List.append_nil]
+      simp only []
       rw [ih _ _ hts]
       by_cases hl : t.lit = []
       · simp only [hl, if_true, mapE]
@@ -212,10 +327,12 @@ theorem ktLoop_good (fi : Bool → Val → Except Exc Val) (ctx : Ctx) (isRec : 
           simp only []
           rw [ih _ _ hts]
           cases mapE (entryOf fi ctx isRec) (parts ts) <;> simp
-      · simp only [hl, if_false, mapE, entryOf, List.cons_append, List.nil_append]
-        cases he : Spec.fieldObj fi ctx isRec f with
+      · simp only [hl, if_false, mapE, List.cons_append, List.nil_append]
+        have hlit : entryOf fi ctx isRec (.lit t.lit) = .ok (.lit t.lit) := rfl
+        rw [hlit]
+        cases he : entryOf fi ctx isRec (.fld f) with
         | error e => simp
-        | ok obj =>
+        | ok en =>
           simp only []
           rw [ih _ _ hts]
           cases mapE (entryOf fi ctx isRec) (parts ts) <;> simp
@@ -223,9 +340,9 @@ theorem ktLoop_good (fi : Bool → Val → Except Exc Val) (ctx : Ctx) (isRec : 
 /-! ## after the loop -/
 
 /-- what phase 2 of the spec sees of an entry -/
-def Entry.toSum : Entry → List Char ⊕ (Val × List Char)
+def Entry.toSum : Entry → List Char ⊕ (Val × Option Char × List Char)
   | .lit t => .inl t
-  | .fld obj rs => .inr (obj, rs.formatSpec)
+  | .fld obj rs => .inr (obj, rs.conversion, rs.formatSpec)
 
 theorem joinEntries_render (es : List Entry) : joinEntries es = Spec.render (es.map Entry.toSum) := by
   induction es with
@@ -237,9 +354,13 @@ theorem joinEntries_render (es : List Entry) : joinEntries es = Spec.render (es.
       cases joinEntries es <;> rfl
     | fld obj rs =>
       simp only [joinEntries, entryText, List.map, Entry.toSum, Spec.render, ← ih, bind, Except.bind, pure, Except.pure]
-      cases formatField obj rs.formatSpec with
+      cases convertField obj rs.conversion with
       | error e => rfl
-      | ok t => cases joinEntries es <;> rfl
+      | ok o =>
+        simp only []
+        cases formatField o rs.formatSpec with
+        | error e => rfl
+        | ok t => cases joinEntries es <;> rfl
 
 theorem resolve_entries (fi : Bool → Val → Except Exc Val) (ctx : Ctx) (isRec : Bool) (ps : List Part) :
     Spec.resolve fi ctx isRec ps =
@@ -257,19 +378,10 @@ theorem resolve_entries (fi : Bool → Val → Except Exc Val) (ctx : Ctx) (isRe
       simp only [Spec.resolve, mapE, entryOf, ih, bind, Except.bind, pure, Except.pure]
       cases Spec.fieldObj fi ctx isRec f with
       | error e => rfl
-      | ok obj =>
-        simp only [rsOf_formatSpec]
+      | ok r =>
+        obtain ⟨obj, pending⟩ := r
+        simp only []
         cases mapE (entryOf fi ctx isRec) ps <;> simp [Entry.toSum, rsOf_formatSpec]
-
-/-- A single expression with a conversion is in the documented grammar only when it is recursive
-    (`rf`, or inside a recursive format) or flat (`ff`): otherwise the code formats the converted text. -/
-def ConvOk (isRec : Bool) (ps : List Part) : Prop :=
-  ∀ f, ps = [.fld f] → f.conv = none ∨ Spec.isRf f.spec = true ∨ Spec.isFf f.spec = true ∨ isRec = true
-
-theorem isRf_isFf_excl (spec : List Char) (h : Spec.isRf spec = true) : Spec.isFf spec = false := by
-  unfold Spec.isRf Spec.isFf at *
-  simp only [decide_eq_true_eq] at h
-  simp [h, rf_ne_ff]
 
 theorem convertField_none (v : Val) : convertField v none = .ok v := rfl
 
@@ -294,15 +406,21 @@ theorem ktFinish_single_go (fi : Bool → Val → Except Exc Val) (obj : Val) (r
     ktFinish fi [.fld obj rs] =
       (match fi rs.isRecursive obj with
        | .error e => .error e
-       | .ok o => finText o rs.formatSpec) := by
+       | .ok o => match convertField o rs.conversion with
+         | .error e => .error e
+         | .ok o' => finText o' rs.formatSpec) := by
   unfold ktFinish finText
   simp only [h, Bool.not_false, if_true]
   cases fi rs.isRecursive obj with
   | error e => rfl
   | ok o =>
-    by_cases hb : rs.formatSpec = []
-    · simp [hb]
-    · cases hf : formatField o rs.formatSpec <;> simp [hb, hf]
+    simp only []
+    cases convertField o rs.conversion with
+    | error e => rfl
+    | ok o' =>
+      by_cases hb : rs.formatSpec = []
+      · simp [hb]
+      · cases hf : formatField o' rs.formatSpec <;> simp [hb, hf]
 
 theorem spec_tail (o : Val) (spec : List Char) :
     (if spec = [] then (pure o : Except Exc Val)
@@ -314,64 +432,29 @@ theorem spec_tail (o : Val) (spec : List Char) :
   · simp [hb, pure, Except.pure]
   · cases hf : formatField o spec <;> simp [hb, hf, bind, Except.bind, pure, Except.pure]
 
-/-- the object of an expression in each of the three modes -/
-theorem fieldObj_ff (deep : Bool → Val → Except Exc Val) (ctx : Ctx) (isRec : Bool) (f : FieldT)
-    (h : Spec.isFf f.spec = true) :
-    Spec.fieldObj deep ctx isRec f =
-      (match getField ctx f.name with
-       | .error e => .error e
-       | .ok obj => convertField obj f.conv) := by
-  have hrf : Spec.isRf f.spec = false := by
-    cases h' : Spec.isRf f.spec
-    · rfl
-    · have := isRf_isFf_excl _ h'; rw [h] at this; cases this
-  simp only [Spec.fieldObj, h, hrf, bind, Except.bind, pure, Except.pure]
-  cases getField ctx f.name <;> simp
-
-theorem fieldObj_rec (deep : Bool → Val → Except Exc Val) (ctx : Ctx) (isRec : Bool) (f : FieldT)
-    (h : (Spec.isRf f.spec || (isRec && !Spec.isFf f.spec)) = true) :
-    Spec.fieldObj deep ctx isRec f =
-      (match getField ctx f.name with
-       | .error e => .error e
-       | .ok obj => match deep true obj with
-         | .error e => .error e
-         | .ok o => convertField o f.conv) := by
-  simp only [Spec.fieldObj, h, bind, Except.bind, pure, Except.pure]
-  cases getField ctx f.name with
-  | error e => rfl
-  | ok obj => simp only [if_true]; cases deep true obj <;> rfl
-
-theorem fieldObj_plain (deep : Bool → Val → Except Exc Val) (ctx : Ctx) (isRec : Bool) (f : FieldT)
-    (h : (Spec.isRf f.spec || (isRec && !Spec.isFf f.spec)) = false) :
-    Spec.fieldObj deep ctx isRec f =
-      (match getField ctx f.name with
-       | .error e => .error e
-       | .ok obj => convertField obj f.conv) := by
-  simp only [Spec.fieldObj, h, bind, Except.bind, pure, Except.pure]
-  cases getField ctx f.name <;> simp
-
 /-- the `len(result) == 1` rule and the join, against the documented cases -/
-theorem ktFinish_spec (fi : Bool → Val → Except Exc Val) (ctx : Ctx) (isRec : Bool) (ps : List Part)
-    (hconv : ConvOk isRec ps) :
+theorem ktFinish_spec (fi : Bool → Val → Except Exc Val) (ctx : Ctx) (isRec : Bool) (ps : List Part) :
     (match mapE (entryOf fi ctx isRec) ps with
      | .error e => .error e
      | .ok es => ktFinish fi es) = Spec.format fi ctx isRec ps := by
-  match ps, hconv with
-  | [], _ => simp [mapE, ktFinish, joinEntries, Spec.format, Spec.formatFlat, Spec.resolve, Spec.render, bind, Except.bind, pure, Except.pure]
-  | [.lit t], _ => simp [mapE, entryOf, ktFinish, Spec.format, pure, Except.pure]
-  | [.fld f], hconv =>
-    have hcv := hconv f rfl
+  match ps with
+  | [] => simp [mapE, ktFinish, joinEntries, Spec.format, Spec.formatFlat, Spec.resolve, Spec.render, bind, Except.bind, pure, Except.pure]
+  | [.lit t] => simp [mapE, entryOf, ktFinish, Spec.format, pure, Except.pure]
+  | [.fld f] =>
     have hL : (match mapE (entryOf fi ctx isRec) [.fld f] with
-        | .error e => .error e
+        | .error e => (Except.error e : Except Exc Val)
         | .ok es => ktFinish fi es) =
         (match Spec.fieldObj fi ctx isRec f with
          | .error e => .error e
-         | .ok obj => ktFinish fi [.fld obj (rsOf isRec f.spec)]) := by
+         | .ok (obj, pending) => ktFinish fi [.fld obj { rsOf isRec f.spec with conversion := pending }]) := by
       simp only [mapE, entryOf]
-      cases Spec.fieldObj fi ctx isRec f <;> rfl
+      cases Spec.fieldObj fi ctx isRec f with
+      | error e => rfl
+      | ok r => obtain ⟨obj, pending⟩ := r; rfl
     rw [hL]
     have hs := rsOf_skip isRec f.spec
-    simp only [Spec.format, Spec.formatSingle, spec_tail, bind, Except.bind, pure, Except.pure]
+    simp only [Spec.format, Spec.formatSingle, spec_tail]
+    simp only [bind, Except.bind, pure, Except.pure]
     -- the three documented modes
     by_cases hff : Spec.isFf f.spec = true
     · -- flat
@@ -384,7 +467,10 @@ theorem ktFinish_spec (fi : Bool → Val → Except Exc Val) (ctx : Ctx) (isRec 
         simp only [hff, if_true]
         cases hc : convertField obj0 f.conv with
         | error e => rfl
-        | ok obj => simp only []; rw [ktFinish_single_skip _ _ _ hs', rsOf_formatSpec]
+        | ok obj =>
+          simp only []
+          rw [ktFinish_single_skip _ _ _ (by simpa using hs')]
+          simp [rsOf_formatSpec]
     · have hff' : Spec.isFf f.spec = false := by simpa using hff
       by_cases hrec : (Spec.isRf f.spec || isRec) = true
       · -- recursive: recursion first, then conversion
@@ -403,29 +489,31 @@ theorem ktFinish_spec (fi : Bool → Val → Except Exc Val) (ctx : Ctx) (isRec 
             simp only []
             cases hc : convertField o f.conv with
             | error e => rfl
-            | ok obj => simp only []; rw [ktFinish_single_skip _ _ _ hs', rsOf_formatSpec]
-      · -- default: no conversion (hypothesis), recursive formatting with the flag off
+            | ok obj =>
+              simp only []
+              rw [ktFinish_single_skip _ _ _ (by simpa using hs')]
+              simp [rsOf_formatSpec]
+      · -- default: recursive formatting with the flag off, then the conversion
         have hrec' : (Spec.isRf f.spec || isRec) = false := by simpa using hrec
         have hrf : Spec.isRf f.spec = false := by cases h : Spec.isRf f.spec <;> simp_all
         have hir : isRec = false := by cases h : isRec <;> simp_all
-        have hnone : f.conv = none := by
-          rcases hcv with h | h | h | h
-          · exact h
-          · rw [hrf] at h; cases h
-          · rw [hff'] at h; cases h
-          · rw [hir] at h; cases h
         subst hir
         have hcond : (Spec.isRf f.spec || (false && !Spec.isFf f.spec)) = false := by simp [hrf]
-        rw [fieldObj_plain _ _ _ _ hcond]
+        rw [fieldObj_plain _ _ _ _ hcond hff']
         have hs' : ((rsOf false f.spec).hasRecursed || (rsOf false f.spec).isFlat) = false := by
           rw [hs, hrf, hff']; rfl
         cases hgf : getField ctx f.name with
         | error e => rfl
         | ok obj0 =>
-          simp only [hff', hrf, hnone, convertField_none, Bool.false_eq_true, if_false, Bool.or_false]
-          rw [ktFinish_single_go _ _ _ hs', rsOf_formatSpec, rsOf_isRecursive, hrf]
-          cases fi false obj0 <;> rfl
-  | p :: q :: rest, _ =>
+          simp only [hff', hrf, Bool.false_eq_true, if_false, Bool.or_false]
+          rw [ktFinish_single_go _ _ _ (by simpa using hs')]
+          simp only [rsOf_formatSpec, rsOf_isRecursive, hrf]
+          cases fi false obj0 with
+          | error e => rfl
+          | ok o =>
+            simp only []
+            cases convertField o f.conv <;> simp [finText]
+  | p :: q :: rest =>
     have hfmt : Spec.format fi ctx isRec (p :: q :: rest) = Spec.formatFlat fi ctx isRec (p :: q :: rest) := by
       cases p <;> rfl
     rw [hfmt]
@@ -441,14 +529,13 @@ theorem ktFinish_spec (fi : Bool → Val → Except Exc Val) (ctx : Ctx) (isRec 
         cases Spec.render (List.map Entry.toSum (e1 :: e2 :: es')) <;> rfl
 
 /-- **`_format_keep_type` computes the documented result** on every string that parses and whose
-    fields are named references with specs free of nested fields (and, for a single expression with a
-    conversion, that is recursive or flat — `ConvOk`). -/
+    fields are named references with specs free of nested fields. -/
 theorem keepType_refines_spec (fi : Bool → Val → Except Exc Val) (ctx : Ctx) (isRec : Bool) (s : List Char)
-    (ts : List Tup) (hp : parseTuples s = (ts, none)) (hg : GoodTups ts) (hc : ConvOk isRec (parts ts)) :
+    (ts : List Tup) (hp : parseTuples s = (ts, none)) (hg : GoodTups ts) :
     keepType fi ctx isRec s = Spec.format fi ctx isRec (parts ts) := by
   unfold keepType
   simp only [hp]
-  rw [ktLoop_good _ _ _ _ _ _ hg, ← ktFinish_spec _ _ _ _ hc]
+  rw [ktLoop_good _ _ _ _ _ _ hg, ← ktFinish_spec]
   cases mapE (entryOf fi ctx isRec) (parts ts) <;> simp
 
 end Pypyr.Format
